@@ -289,8 +289,10 @@ Section Step2.
     destruct Hl as [[sid [-> | ->]] | [a ->]].
     - destruct (srv_at s sid) as [sv0|] eqn:Es; [|discriminate]. unfold srv_at in Es.
       destruct (_ && _) eqn:Eg; [|discriminate].
-      apply andb_true_iff in Eg as [Eg Eb]. apply andb_true_iff in Eg as [E1 E2].
-      apply sv_pc_eqb_eq in E1. apply negb_true_iff in E2.
+      apply andb_true_iff in Eg as [E1 Eb]. apply sv_pc_eqb_eq in E1.
+      destruct (s_shut sv0) eqn:E2.
+      { destruct (net_get (net s) (addr (s_cfg sv0))) as [[|j]|] eqn:En; try discriminate.
+        apply get_in in En. destruct (i_own _ _ I _ _ En) as [j Hj]. discriminate. }
       unfold bound_any in Eb. destruct (net_get (net s) (addr (s_cfg sv0))) as [o|] eqn:En; [|discriminate].
       apply get_in in En. destruct (i_own _ _ I _ _ En) as [j ->].
       destruct (i_net _ _ I _ _ En) as (sv1 & Hn1 & Hs1 & Hp1 & _).
